@@ -211,8 +211,14 @@ func hook(op, path string) error {
 	return nil
 }
 
+// ReadHookFilter restricts read hooks to paths containing this substring ("" = all).
+var ReadHookFilter string
+
 func readHook(op, path string) error {
 	if !Enabled || !ReadHooks {
+		return nil
+	}
+	if ReadHookFilter != "" && !strings.Contains(path, ReadHookFilter) {
 		return nil
 	}
 	if FSYield {
@@ -545,6 +551,25 @@ func ReadFile(p string) ([]byte, error) {
 		return nil, err
 	}
 	return os.ReadFile(p)
+}
+
+// Lstat and Readlink are only hooked when read faults are being injected (C13).
+func Lstat(p string) (os.FileInfo, error) {
+	if Enabled && ReadHooks {
+		if err := readHook("lstat", p); err != nil {
+			return nil, err
+		}
+	}
+	return os.Lstat(p)
+}
+
+func Readlink(p string) (string, error) {
+	if Enabled && ReadHooks {
+		if err := readHook("readlink", p); err != nil {
+			return "", err
+		}
+	}
+	return os.Readlink(p)
 }
 
 // ---- flock ------------------------------------------------------------------------------------
